@@ -403,8 +403,11 @@ fn navigation(thorough: bool, seed: u64, rep: &mut Report) {
                     let ok = matches!(v.get_fragment(m.offset), Ok(json_syntax::FragmentRef::Entry(y)) if std::ptr::eq(y, e)) && matches!(v.get_fragment(m.value.key.offset), Ok(json_syntax::FragmentRef::Key(y)) if std::ptr::eq(y, &e.key)) && matches!(v.get_fragment(m.value.value.offset), Ok(json_syntax::FragmentRef::Value(y)) if std::ptr::eq(y, &e.value));
                     if !ok { fail(rep, "object iter_mapped offsets (entry, key, value)", format!("object at {}", i)); }
                 }
-                for e in o.entries() {
-                    let k = e.key.as_str();
+                // every key of the object and keys it does not have (absent keys: nothing is found)
+                let mut asked: Vec<String> = Vec::new();
+                for e in o.entries() { for q in [e.key.as_str().to_string(), format!("{}x", e.key.as_str())] { if !asked.contains(&q) { asked.push(q); } } }
+                for q in ["", "a", "absent"] { if !asked.contains(&q.to_string()) { asked.push(q.to_string()); } }
+                for k in asked.iter().map(|x| x.as_str()) {
                     let want: Vec<(usize, usize, usize)> = all.iter().filter(|m| m.value.key.value.as_str() == k).map(|m| (m.offset, m.value.key.offset, m.value.value.offset)).collect();
                     let got: Vec<(usize, usize, usize)> = o.get_mapped_entries(&cm, *i, k).map(|m| (m.offset, m.value.key.offset, m.value.value.offset)).collect();
                     let got2: Vec<usize> = o.get_mapped(&cm, *i, k).map(|m| m.offset).collect();
@@ -533,6 +536,21 @@ fn same_frag(a: &json_syntax::FragmentRef, b: &json_syntax::FragmentRef) -> bool
 // ---- KindSet renderings -----------------------------------------------------------------------------
 
 fn renderings(rep: &mut Report) {
+    // the kind reported for a value matches its variant: several values per variant (both booleans, zero and
+    // non-zero numbers, empty and non-empty strings / arrays / objects) against all six kinds and the `is_*` tests
+    rep.checks.push("C20: kind() / is_kind(k) / is_null .. is_object for several values of every variant x all six kinds".into());
+    {
+        let ks = [Kind::Null, Kind::Boolean, Kind::Number, Kind::String, Kind::Array, Kind::Object];
+        let samples: [(&str, usize); 12] = [("null", 0), ("true", 1), ("false", 1), ("0", 2), ("-1.5e3", 2), ("\"\"", 3), ("\"x\"", 3), ("[]", 4), ("[null]", 4), ("[false,0]", 4), ("{}", 5), ("{\"a\":false}", 5)];
+        for (doc, want) in samples {
+            let (v, _) = Value::parse_str(doc).unwrap();
+            rep.eval(true, fnv(doc.as_bytes()));
+            if v.kind() != ks[want] { rep.violation("the kind reported for a value matches its variant", "kind", doc.to_string(), format!("kind() = {:?}", v.kind())); }
+            for (i, k) in ks.iter().enumerate() { if v.is_kind(*k) != (i == want) { rep.violation("the kind reported for a value matches its variant", "is_kind", doc.to_string(), format!("is_kind({:?}) = {}", k, v.is_kind(*k))); } }
+            let tests = [v.is_null(), v.is_boolean(), v.is_number(), v.is_string(), v.is_array(), v.is_object()];
+            for (i, t) in tests.iter().enumerate() { if *t != (i == want) { rep.violation("the kind reported for a value matches its variant", "is_x", doc.to_string(), format!("is_{:?}() = {}", ks[i], t)); } }
+        }
+    }
     rep.checks.push("C20: Display / as_disjunction / as_conjunction for all 64 sets (exhaustive execution)".into());
     rep.rule = "all 64 kind sets built through the public API; every rendering compared with the documented shapes; exhaustive".into();
     let kinds = [Kind::Null, Kind::Boolean, Kind::Number, Kind::String, Kind::Array, Kind::Object];
